@@ -711,15 +711,21 @@ def lattice_3d(cx):
                 Ls = dict(x=Lx, y=Ly, z=Lz)
                 if Ls[fw[0]] >= 2:
                     rg = (0, 1) if fw.endswith("min") else (Ls[fw[0]] - 2, Ls[fw[0]] - 1)
-                    for capped in (False, True):
-                        p = dict(base, mode=mode, from_which=fw, cap=cap if capped else None)
+                    for capped, inplace in itertools.product((False, True), (True, False)):
+                        p = dict(base, mode=mode, from_which=fw, cap=cap if capped else None, inplace=inplace)
 
-                        def t_step(mode=mode, fw=fw, rg=rg, cap=cap, capped=capped):
+                        def t_step(mode=mode, fw=fw, rg=rg, cap=cap, capped=capped, inplace=inplace):
                             ranges = dict(xrange=(0, Lx - 1), yrange=(0, Ly - 1), zrange=(0, Lz - 1))
                             ranges[fw[0] + "range"] = rg
-                            r = tn.contract_boundary_from(from_which=fw, max_bond=cap if capped else CHI, cutoff=0.0, mode=mode, **ranges)
-                            if not tensors_equal(tn, before):
+                            t0 = tn.copy()
+                            r = t0.contract_boundary_from(from_which=fw, max_bond=cap if capped else CHI, cutoff=0.0, mode=mode,
+                                                          inplace=inplace, **ranges)
+                            if inplace:
+                                r = t0  # (the in-place spelling is inspected through the object it was called on)
+                            elif not tensors_equal(t0, before):
                                 return "the non in-place call modified the network"
+                            if r is None:
+                                return "the non in-place call returned None (the contracted copy is lost)"
                             if capped:
                                 return check_cap(r, cap, D)
                             return cmp_value(value_of(r), ex, tol * (100 if mode in ("su", "l2bp", "l2bp3d") else 1), "value after the step")
